@@ -21,7 +21,7 @@ struct XmlDoc {
     static std::string esc(const std::string& s)
     {
         std::string o;
-        for (char c : s) { if (c == '&') o += "&amp;"; else if (c == '<') o += "&lt;"; else if (c == '>') o += "&gt;"; else if (c == '"') o += "&quot;"; else o += c; }
+        for (char c : s) { if (c == '&') o += "&amp;"; else if (c == '<') o += "&lt;"; else if (c == '>') o += "&gt;"; else if (c == '"') o += "&quot;"; else if (c == '\r') o += "&#13;"; else o += c; }   // a literal CR would be normalised away by libxml2
         return o;
     }
     std::string render() const
